@@ -74,7 +74,20 @@ def derived(check, tier, seed):
     s.done()
 
 
+
+def long_inputs(check, tier):
+    from bounded.common import long_values
+    s = Suite(check, "C09.long", "splice / append contracts at run time on values with thousands of runs (positions at the ends, in the middle, "
+              "on and next to run boundaries; str, FmtStr and run-less new values)", bound="<= 6000 characters")
+    for label, v in long_values():
+        L = len(v.s)
+        for new in ("XY", FmtStr(Chunk("N", {"fg": 35}), Chunk("", {}), Chunk("M", {})), FmtStr(), v[:3]):
+            for (a, b) in ((0, 0), (0, L), (1, 2), (L // 2, L // 2 + 1), (L // 2, None), (L - 1, L), (L, None), (L + 2, None), (2, L - 2)):
+                s.contract_case(F.splice, dict(self=v, new_str=new, start=a, end=b), key=(label, repr(new)[:20], a, b))
+    s.done()
+
 def run(check, tier, seed):
+    long_inputs(check, tier)
     for c in CONTRACTS:
         verify(c, tier, check)
     bounded(check, tier)
